@@ -311,6 +311,12 @@ class ProcSim:
 
         real = pm.multiprocessing
         pm.multiprocessing = SimMP(self)
+        # if parallel_map (now or after a change) uses the time module for polling or
+        # deadlines, it must read the simulated clock, never the real one
+        real_time = pm.__dict__.get("time")
+        if real_time is not None:
+            pm.time = SimTime(self, real_time)
+        real_queue_mod = pm.__dict__.get("queue")
         gc_was = gc.isenabled()
         gc.disable()  # no __del__ at an arbitrary instant inside a run
         self.attach_main()
@@ -319,6 +325,9 @@ class ProcSim:
         finally:
             self.shutdown()
             pm.multiprocessing = real
+            if real_time is not None:
+                pm.time = real_time
+            del real_queue_mod
             if gc_was:
                 gc.enable()
 
@@ -479,6 +488,33 @@ class SimProcess:
 
     def close(self):
         pass
+
+
+class SimTime:
+    """Stands in for the `time` module inside parallel_map: time()/monotonic() read the
+    simulated clock, sleep() is a sync point that advances it."""
+
+    def __init__(self, sim, real):
+        self._sim = sim
+        self._real = real
+
+    def time(self):
+        return self._sim.now / 1e6
+
+    monotonic = perf_counter = time
+
+    def sleep(self, seconds):
+        sim = self._sim
+        if sim.closed:
+            return
+        me = sim.me()
+        sim._check_alive(me)
+        sim.log.add(sim.steps, sim.now, me.name, "sleep", int(seconds * 1e6))
+        sim._ready(me, int(max(0.0, seconds) * 1e6))
+        sim._schedule(me)
+
+    def __getattr__(self, name):
+        return getattr(self._real, name)
 
 
 class SimMP:
